@@ -55,7 +55,9 @@ pub fn dash_path(path: &Path, dash_array: &[f32], mut dash_offset: f32) -> Path 
     };
 
     // adjust our position in the dash array by the dash offset
-    while dash_offset > state.remaining_length {
+    // (an offset that ends exactly on an entry boundary starts on the next entry: an exhausted
+    // entry would end the first segment before it began and lose the join of a closed subpath)
+    while dash_offset >= state.remaining_length {
         dash_offset -= state.remaining_length;
         state.index += 1;
         state.remaining_length = dash_array[state.index % dash_array.len()];
